@@ -137,6 +137,19 @@ def rule_m1(ck, prog):
         probs = []
         sums = P.summarize(f, max_visits=2)
         nfound = nnull = 0
+        # how the scanned character is read decides what "its position" is: `c = *str++` -> str - 1 ; `c = str[i]` -> str + i
+        sp, szp = f.params[0]["name"], f.params[1]["name"]
+        expected_ret = set()
+        for n, t in C.stores(f):
+            if t.get("path") == "c" and n.get("op") == "=":
+                r = n.child(1).strip_all_casts()
+                if r.k == "UnaryOperator" and r.get("op") == "*":
+                    inner = r.child(0).strip_all_casts()
+                    if inner.k == "UnaryOperator" and inner.get("op") == "++" and inner.get("postfix") and inner.child(0).strip_all_casts().get("path") == sp:
+                        expected_ret |= {"%s-1" % sp}
+                elif r.k == "ArraySubscriptExpr" and r.child(0).strip_all_casts().get("path") == sp:
+                    ix = r.child(1).strip_all_casts().get("path")
+                    expected_ret |= {"%s+%s" % (sp, ix), "&%s[%s]" % (sp, ix)}
         for ps in sums:
             if ps.ret_node is None or not ps.ret_node.ch:
                 continue
@@ -152,12 +165,20 @@ def rule_m1(ck, prog):
                 if not eqs or eqs[-1] is not True:
                     probs.append("a pointer is returned without a member having been found")
                 src = ps.ret_node.child(0).strip_all_casts().src.replace(" ", "")
-                if src != "str-1":
-                    probs.append("the pointer returned is `%s`, not the position of the member (str - 1 after the read)" % src)
+                while src.startswith("(") and src.endswith(")"):
+                    src = src[1:-1]
+                if src not in expected_ret:
+                    probs.append("the pointer returned is `%s`, not the position of the member just compared (%s)" % (src, sorted(expected_ret)))
         # the scan is bounded by size and by NUL
         conds = " ".join(b.cond.src.replace(" ", "") for b in f.blocks.values() if b.cond is not None)
-        if "strend!=str" not in conds and "str!=strend" not in conds and "str<strend" not in conds:
+        bounded = any(x in conds for x in ("strend!=str", "str!=strend", "str<strend")) or \
+            any(b.cond is not None and b.cond.k == "BinaryOperator" and b.cond.get("op") in ("!=", "<") and
+                szp in (b.cond.child(0).strip_all_casts().get("path"), b.cond.child(1).strip_all_casts().get("path"))
+                for b in f.blocks.values())
+        if not bounded:
             probs.append("the scan is not bounded by str + size")
+        if not expected_ret:
+            probs.append("the scanned character is not read from the string (`c = *str++` or `c = str[i]`)")
         if not nfound or not nnull:
             ck.anchor_lost("C03-M1", "strnpbrk: found/NULL paths (%d, %d)" % (nfound, nnull))
         elif probs:
@@ -552,6 +573,42 @@ def capacity_guard(f, S, numbers, idxvar, nlen):
     return in_guard, safe, is_slot
 
 
+def slot_helper(prog, S, call, numbers, idxvar, nlen, dflt):
+    """a call to a static helper that receives (numbers, capacity, index, default): (stores_default_guarded, returns_safe_slot)
+    judged inside the helper with its own parameter names; None if the call is not of that kind"""
+    g = prog.fn(call.get("callee") or "")
+    if g is None or not g.static:
+        return None
+    args = [a.strip_all_casts().get("path") for a in C.call_args(call)]
+    if numbers not in args or idxvar not in args or nlen not in args:
+        return None
+    names = [p_["name"] for p_ in g.params]
+    m = {numbers: names[args.index(numbers)], idxvar: names[args.index(idxvar)], nlen: names[args.index(nlen)]}
+    d2 = names[args.index(dflt)] if dflt in args else None
+    in_guard, safe, is_slot = capacity_guard(g, S, m[numbers], m[idxvar], m[nlen])
+    stores_ok = True
+    stored_default = False
+    for n, t in C.stores(g):
+        p = t.get("path") or ""
+        if p.startswith(m[numbers] + "[") or (t.k == "UnaryOperator" and t.get("op") == "*"):
+            if not in_guard(n):
+                stores_ok = False
+            elif d2 and n.get("op") == "=" and n.child(1).strip_all_casts().get("path") == d2:
+                stored_default = True
+    rets_ok = True
+    for r in g.nodes.values():
+        if r.k == "ReturnStmt" and r.ch and g.ret.get("tk") == "ptr":
+            if C.is_null(r.child(0)):
+                continue
+            facts = K.facts_at(S, g, r) or []
+            gd = any(a.get("path") == m[numbers] and pol is True for a, pol in facts if not isinstance(pol, tuple)) and \
+                any(a.k == "BinaryOperator" and a.get("op") == "<" and pol is True and a.child(0).strip_all_casts().get("path") == m[idxvar]
+                    and a.child(1).strip_all_casts().get("path") == m[nlen] for a, pol in facts if not isinstance(pol, tuple))
+            if not (is_slot(r.child(0)) and gd):
+                rets_ok = False
+    return (stores_ok and stored_default, stores_ok and rets_ok and g.ret.get("tk") == "ptr")
+
+
 def rule_m5_m6(ck, prog, S):
     f = prog.fn("matchCommand")
     if f is None:
@@ -641,6 +698,12 @@ def rule_m5_m6(ck, prog, S):
                                     "`%s` is not guarded by %s != NULL && %s < %s: the caller's array is written past its capacity"
                                     % (n.src, numbers, idxvar, nlen))
             if not ok:
+                for c_ in f.calls():
+                    if pg.before(c_) in reach2:
+                        sh = slot_helper(prog, S, c_, numbers, idxvar, nlen, dflt)
+                        if sh and sh[0]:
+                            ok = True
+            if not ok:
                 probs.append("no guarded store of the caller's default after the '#' test (edge %d)" % k)
         if probs:
             ck.violated("C03-M5", st, K.loc(f), sorted(set(probs))[0], {"all": sorted(set(probs))})
@@ -685,6 +748,21 @@ def rule_m5_m6(ck, prog, S):
                         "numeric-suffix keyword's slot, so a suffix beyond the capacity overwrites an earlier entry of numbers[]" % dest)
         else:
             ck.holds("C03-M6", stt, K.loc(f, mp[0]), "`%s` is assigned on every path from the keyword boundary to matchPattern" % dest)
+    for n, t in C.stores(f):
+        if t.k == "DeclRefExpr" and t.get("tk") == "ptr" and n.get("op") == "=":
+            r_ = n.child(1).strip_all_casts()
+            if r_.k == "CallExpr":
+                sh = slot_helper(prog, S, r_, numbers, idxvar, nlen, dflt)
+                if sh is not None:
+                    nst += 1
+                    if not sh[1]:
+                        bad.append(n)
+    for c_ in f.calls():
+        sh = slot_helper(prog, S, c_, numbers, idxvar, nlen, dflt)
+        if sh is not None:
+            nst += 1
+            if not (sh[0] or sh[1]):
+                bad.append(c_)
     if nst == 0:
         ck.anchor_lost("C03-M6", "stores into numbers[] in matchCommand")
     elif bad:
